@@ -35,7 +35,9 @@ func TestWriteCorpus(t *testing.T) {
 		return &Desc{Mode: mode, Exit: []uint16{}, Channel: 1, Velocity: 64, DefMapping: "M", Colors: colorPalette,
 			Mappings: []MappingDef{{Name: "M", KeySubs: []string{""}, Keys: []KeyDef{{Code: 30, Note: 60}, {Code: 31, Note: 60}, {Code: 32, Note: 127}}}}}
 	}
-	tap := func(code uint16) []Step { return []Step{{T: "key", Code: code, Val: 1}, {T: "key", Code: code, Val: 0}} }
+	tap := func(code uint16) []Step {
+		return []Step{{T: "key", Code: code, Val: 1}, {T: "key", Code: code, Val: 0}}
+	}
 
 	// C04: int8 octave*12
 	d := simple("off")
